@@ -159,6 +159,9 @@ def cases(c, rng, shard):
                     yield harness.fill_derived(c, a, rng)
     for _ in range(n):
         yield harness.random_args(c, rng)
+    if not c.custom:
+        for a in harness.novel_products(c, rng, limit=400):
+            yield a
     if c.xfer in ("alloc", "allocarg"):
         # the allocation length left at its default
         for _ in range(6):
